@@ -199,11 +199,14 @@ class TWorld:
         pass        # a WSGI worker cannot observe a vanished client while blocked
 
     # -- websocket ----------------------------------------------------------------------------
-    def ws_open(self, query, headers=(), path='/engine.io/', scheme='http'):
+    def ws_open(self, query, headers=(), path='/engine.io/', scheme='http', upgrade_hdrs=None):
+        # (a WSGI gateway with WebSocket support can upgrade any GET the application decides to
+        # upgrade: upgrade_hdrs gives the Upgrade/Connection headers the client actually sent)
         conn = WsConn(self, query, list(headers))
         if self.ws_read_timeout:
             conn.read_timeout = self.server.ping_interval + self.server.ping_timeout
-        hdrs = list(headers) + [('Upgrade', 'websocket'), ('Connection', 'Upgrade')]
+        hdrs = list(headers) + (list(upgrade_hdrs) if upgrade_hdrs is not None else
+                                [('Upgrade', 'websocket'), ('Connection', 'Upgrade')])
         env = self._environ('GET', path, query, hdrs, scheme)
         env['verif.ws'] = conn
         env['wsgi.input'] = RecordingInput(Req(self, 'GET', path, query, hdrs, b'', None), b'')
